@@ -49,6 +49,11 @@ CHECKS = {
                      '(misreported load, unknown / duplicated / dropped / split job, assigned and unassigned, arrival / distance / statistic mismatch, capacity below load, distance / duration / tour-size limit, broken relation, misplaced break), keeps those whose mutated pair the specification finds invalid, '
                      'and the driver applies each descriptor to the real documents: the checker must answer Err.',
                 note='trusted: TLC; the mechanical application of breach descriptors in checks/checker.py; explicit matrices always supplied. Magnitudes exceed the checker tolerances (+-1).'),
+    'C14': dict(category='model_checking', design_ref='DESIGN.md section 6 C14', technique='TLC-generated operation histories (Containers.tla reference model) replayed into Tour / RegistryContext, observations compared by JudgeContainers.tla',
+                text='The reference model of a tour (activity sequence between the depot ends, job set, counts, leg enumeration incl. the open-end leg) and of the vehicle registry (available set, one offer per group, use / free results, deep copy, deep slice), '
+                     'each with an original and a deep copy, is model-checked exhaustively (BFS to depth 5 under a VIEW) and used to generate 14-step histories in simulation mode (closed and open tours); '
+                     'every step is executed on the real objects and the full observation of both instances must equal the model (results incl. contract panics, independence of copies).',
+                note='trusted: TLC; harness observation code (pointer identity for legs). insert_at indices stay inside the contract; Registry is reached through RegistryContext (get_route / use_route / free_route).'),
     'C20': dict(category='model_checking', design_ref='DESIGN.md section 6 C20', technique='TLC-enumerated cases replayed into the evaluator, quotes and realised fitness change judged by Insertion.tla',
                 text='Same exhaustive enumeration as C06 under two goals ([unassigned, tours, distance] and [value, unassigned, cost]): the quoted cost vector of the chosen insertion is compared layer by layer with the model value of the objective change and with the fitness change the code measures after really inserting; cost layer only where the model finds no waiting before and after.',
                 note='trusted: TLC; integer worlds (all quotes are integers, compared exactly at 1/1000); time-independent routing; no conditional jobs (the ignored-jobs special case of the unassigned objective is outside the domain, see DESIGN).'),
